@@ -198,6 +198,25 @@ try:
         C.judge("honest-odd-ec-key", pol(2), xml=ksrxml.render_ksr(request([[k, other], [other, k]])), desc={"x0": hex(k["pub"][0])})
         r2 = clone(request([[k]])); r2["bundles"][0]["keys"][0]["pub"] = flip(k["pub"], 9)
         C.judge("odd-ec-key-flipped", pol(1), xml=ksrxml.render_ksr(r2), strict=False)
+    # a signature is the octet string, not the integer: an RSA signature that starts with a zero octet, handed in with that octet dropped
+    # (or padded with one more), is a changed signature
+    rk = [k for k in KEYS if k["alg"] in (8, 10)][:3]
+    nshort = 0
+    for k in rk:
+        for s_ in range(4000):
+            inc = NOW + D(days=5, seconds=s_)
+            sg = ksrxml.mk_sig(k, [k], inc, inc + D(days=21))
+            if sg["data"][0] != 0:
+                continue
+            base = {"id": "pop-short", "serial": 3, "domain": ".", "zsk": ksrxml.default_zsk_policy(algs=declared([k])),
+                    "bundles": [{"id": f"bz-{s_}", "inc": inc, "exp": inc + D(days=21), "keys": [k], "sigs": [sg]}]}
+            C.judge("honest-leading-zero-signature", pol(1), xml=ksrxml.render_ksr(base), desc={"shift_s": s_})
+            r2 = clone(base); r2["bundles"][0]["sigs"][0]["data"] = sg["data"].lstrip(b"\0")
+            C.judge("signature-leading-zero-dropped", pol(1), xml=ksrxml.render_ksr(r2), desc={"len": len(r2["bundles"][0]["sigs"][0]["data"])})
+            r3 = clone(base); r3["bundles"][0]["sigs"][0]["data"] = b"\0" + sg["data"]
+            C.judge("signature-zero-prepended", pol(1), xml=ksrxml.render_ksr(r3), desc={"len": len(sg["data"]) + 1})
+            nshort += 1
+            break
 finally:
     C.close()
 
